@@ -50,6 +50,13 @@ ASSUMPTIONS = [
 def gen_case(tape, tier):
     from pipefunc.map import storage_registry
 
+    if tape.coin(0.0003 if tier == "quick" else 0.0001, "big-array"):
+        # thousands of elements: more than any batch size somebody might read or write them in
+        n = tape.pick([4100, 8200, 8232], "big-n")
+        return {"backend": "file_array", "full": [n], "mask": [True], "coarse_mtime": False, "relative": False, "big": True,
+                "ops": [{"op": "dump", "key": [{"slice": [None, None, None]}], "value": 1},
+                        {"op": "dump", "key": [tape.choose(n, "idx")], "value": 2},
+                        {"op": "to_array", "splat": None}, {"op": "mask_linear"}, {"op": "get", "key": [n - 1]}]}
     backend = tape.pick(sorted(b for b in storage_registry if b != "eager_dict"), "backend")  # shipped backends only
     rank = 1 + tape.choose(3, "rank")
     full = [1 + tape.choose(3, "size") for _ in range(rank)]
@@ -525,7 +532,7 @@ def _run_case(case, exec_seed=None, exec_tape=None):
             os.chdir(root)
             probes["relative_folder"] = 1
         while idx[0] < len(case["ops"]) and not viol:
-            sim = C.new_sim(tape, root, preempt=0.4)  # (only matters while a second thread exists)
+            sim = C.new_sim(tape, root, preempt=0.4, step_cap=400000 if case.get("big") else 20000)  # (pre-emption only matters while a second thread exists)
             sim.fs.coarse_mtime = bool(case.get("coarse_mtime"))
             sim.fs.mtimes, sim.fs.mtime_now = mt_state["mtimes"], mt_state["now"]
             state["sim"] = sim
